@@ -56,14 +56,20 @@ func ExtendProp(name, classPrefix string, ext Prop) {
 		}
 		own := c.Rng
 		c.Rng = rand.New(rand.NewSource(c.Seed*1000003 + 7466))
-		n := 0
+		n, failed := 0, 0
 		ext.Gen(c, func(cs *Case) {
 			n++
+			if failed >= 3 {
+				return // enough failing inputs of this family; the property's own cases are still to come
+			}
 			cs.ID = fmt.Sprintf("x%d", n)
 			if !strings.HasPrefix(cs.Class, classPrefix) {
 				cs.Class = classPrefix + ":" + cs.Class
 			}
 			run(c, cs)
+			if cs.Oracle == "fail" {
+				failed++
+			}
 			c.Emit(cs)
 		})
 		c.mu.Lock()
